@@ -24,6 +24,10 @@ pub struct LongCfg {
     /// `chain_life` (> chain_every) transactions, so a reader is open whenever a writer begins
     pub chain_every: u32,
     pub chain_life: u32,
+    /// keys are padded to this length (0 = short keys): long keys make branch pages overflow
+    pub klen: u32,
+    /// workload 5: size of the initial population whose alternating leaves are then deleted
+    pub pop: u32,
 }
 
 pub fn draw(seed: u64, thorough: bool, pagesize: u64) -> LongCfg {
@@ -34,8 +38,16 @@ pub fn draw(seed: u64, thorough: bool, pagesize: u64) -> LongCfg {
     let chain = mode == 1;
     let chain_every = r.range(1, 4) as u32;
     let from = r.range(txs as u64 / 10, txs as u64 / 3) as u32;
+    let workload = r.below(6) as u32;
+    let klen = match r.below(4) {
+        0 => (pagesize as u32 / 2).saturating_sub(24),
+        1 => pagesize as u32 / 5,
+        _ => 0,
+    };
     LongCfg {
-        workload: r.below(5) as u32,
+        workload,
+        klen: if workload == 5 { 0 } else { klen },
+        pop: *r.pick(&[300u32, 1200, 2000]),
         txs,
         keys: *r.pick(&[4u32, 16, 64]),
         vsize: *r.pick(&[16u32, 200, pagesize as u32, pagesize as u32 * 3 + 11]),
@@ -61,6 +73,8 @@ struct Sample {
     hwm: u64,
     live: u64,
     file_len: u64,
+    /// pages this commit wrote (bytes handed to write calls / page size)
+    written: u64,
 }
 
 fn stat(path: &str, ps: u64) -> Result<Sample, String> {
@@ -77,7 +91,7 @@ fn stat(path: &str, ps: u64) -> Result<Sample, String> {
     if rep.shape.hwm == 0 {
         return Err(format!("file unsound: {:?}", rep.errors.first()));
     }
-    Ok(Sample { hwm: rep.shape.hwm, live: rep.shape.reachable_pages, file_len: len })
+    Ok(Sample { hwm: rep.shape.hwm, live: rep.shape.reachable_pages, file_len: len, written: 0 })
 }
 
 fn open(path: &str, ps: u64, np: usize) -> Result<DB, String> {
@@ -90,7 +104,13 @@ fn open(path: &str, ps: u64, np: usize) -> Result<DB, String> {
 
 /// One transaction of the workload; mirrors into the model.
 fn one_tx(tx: &Tx, m: &mut MBucket, lc: &LongCfg, t: u32, r: &mut Rng, ps: u64) -> Result<(), jammdb::Error> {
-    let key = |i: u32| format!("key{:05}", i).into_bytes();
+    let key = |i: u32| {
+        let mut k = format!("key{:05}", i).into_bytes();
+        while (k.len() as u32) < lc.klen {
+            k.push(b'p');
+        }
+        k
+    };
     match lc.workload {
         // fixed-size overwrite of the same keys
         0 => {
@@ -161,6 +181,42 @@ fn one_tx(tx: &Tx, m: &mut MBucket, lc: &LongCfg, t: u32, r: &mut Rng, ps: u64) 
                 let _ = mn.put(b"x", &vec![7u8; nl]);
             }
         }
+        // a large, fragmented free list: populate, delete alternating leaves, then small
+        // overwrites mixed with a few multi-page values that need contiguous runs
+        5 => {
+            let b = tx.get_or_create_bucket("w")?;
+            let mb = sub(m, b"w");
+            let small = (ps as u32 / 2).saturating_sub(60);
+            if t == 0 {
+                for i in 0..lc.pop {
+                    let v = Blob::Pat { tag: i, len: small }.bytes();
+                    b.put(key(i), v.clone())?;
+                    let _ = mb.put(&key(i), &v);
+                }
+            } else if t == 1 {
+                for i in 0..lc.pop {
+                    if (i / 4) % 2 == 0 {
+                        b.delete(key(i))?;
+                        let _ = mb.delete(&key(i));
+                    }
+                }
+            } else {
+                for _ in 0..3 {
+                    let i = r.below(lc.pop as u64) as u32;
+                    if (i / 4) % 2 == 1 {
+                        let v = Blob::Pat { tag: t * 1000 + i, len: small }.bytes();
+                        b.put(key(i), v.clone())?;
+                        let _ = mb.put(&key(i), &v);
+                    }
+                }
+                if r.chance(1, 3) {
+                    let k = format!("zbig{}", r.below(4)).into_bytes();
+                    let v = Blob::Pat { tag: t, len: ps as u32 * r.range(2, 5) as u32 + 7 }.bytes();
+                    b.put(k.clone(), v.clone())?;
+                    let _ = mb.put(&k, &v);
+                }
+            }
+        }
         // mixed: overwrite a random subset, delete a few, re-add
         _ => {
             let b = tx.get_or_create_bucket("w")?;
@@ -206,6 +262,8 @@ fn run(case: &Case, dir: &str) -> Verdict {
             reader_to: l["reader_to"].as_u64().unwrap_or(0) as u32,
             chain_every: l["chain_every"].as_u64().unwrap_or(0) as u32,
             chain_life: l["chain_life"].as_u64().unwrap_or(0) as u32,
+            klen: l["klen"].as_u64().unwrap_or(0) as u32,
+            pop: l["pop"].as_u64().unwrap_or(300) as u32,
         },
         None => draw(case.seed, thorough, case.pagesize),
     };
@@ -215,7 +273,7 @@ fn run(case: &Case, dir: &str) -> Verdict {
     let mut v = Verdict::default();
     v.extra_out = json!({"long": {"workload": lc.workload, "txs": lc.txs, "keys": lc.keys, "vsize": lc.vsize,
         "reopen_every": lc.reopen_every, "reader_from": lc.reader_from, "reader_to": lc.reader_to,
-        "chain_every": lc.chain_every, "chain_life": lc.chain_life}});
+        "chain_every": lc.chain_every, "chain_life": lc.chain_life, "klen": lc.klen, "pop": lc.pop}});
     let mut r = Rng::new(mix(case.seed, 0x77));
     let mut model = MBucket::default();
     let mut samples: Vec<Sample> = Vec::with_capacity(lc.txs as usize);
@@ -310,6 +368,7 @@ fn run(case: &Case, dir: &str) -> Verdict {
                 }
             }
             let mut m2 = model.clone();
+            let log_from = simos::log_len();
             let res = catch(|| -> Result<(), jammdb::Error> {
                 let tx = dbr.tx(true)?;
                 one_tx(&tx, &mut m2, &lc, t, &mut r, ps)?;
@@ -327,7 +386,8 @@ fn run(case: &Case, dir: &str) -> Verdict {
                 }
             }
             match stat(&path, ps) {
-                Ok(s) => {
+                Ok(mut s) => {
+                    s.written = (simos::bytes_written_since(log_from) + ps - 1) / ps;
                     // a runaway file makes every further step slower: stop as soon as the mark
                     // is far beyond anything the final bound could allow
                     let live_so_far = samples.iter().map(|x| x.live).max().unwrap_or(0).max(s.live);
@@ -444,15 +504,22 @@ fn run(case: &Case, dir: &str) -> Verdict {
         let mid = lo + (hi - lo) / 2;
         let first = samples[lo..mid].iter().map(|s| s.hwm).max().unwrap_or(0).max(before);
         let second = samples[mid..hi].iter().map(|s| s.hwm).max().unwrap_or(0);
-        // fragmentation of multi-page runs converges slowly; a leak grows without end
-        let slack = 8 + 2 * max_live;
+        // fragmentation of multi-page runs converges slowly; a leak grows without end. The
+        // allowance is a constant that does not depend on the number of transactions: a few
+        // times what a single commit of the judged stretch writes (a steady workload cannot
+        // strand more than that per round of fragmentation), never more than twice the live data
+        let dwin = samples[lo..hi].iter().map(|s| s.written).max().unwrap_or(0);
+        let slack = (8 + 2 * max_live).min(8 + 4 * dwin);
+        let grew = second.saturating_sub(first);
+        let bucket = if grew <= 8 { "plateau_growth_le_8" } else if grew <= 8 + dwin { "plateau_growth_le_1D" } else if grew <= 8 + 2 * dwin { "plateau_growth_le_2D" } else if grew <= 8 + 4 * dwin { "plateau_growth_le_4D" } else { "plateau_growth_gt_4D" };
+        *v.counters.entry(bucket.into()).or_default() += 1;
         if second > first + slack {
             v.violation = Some(fail(
                 "growth",
                 "plateau",
                 format!(
-                    "the high-water mark keeps growing with the number of transactions: max {} pages in transactions [{}..{}) but {} in [{}..{}) (live data at most {} pages, reader hold {}..{}); workload {} keys {} vsize {} reopen_every {}",
-                    first, lo, mid, second, mid, hi, max_live, lc.reader_from, lc.reader_to, lc.workload, lc.keys, lc.vsize, lc.reopen_every
+                    "the high-water mark keeps growing with the number of transactions: max {} pages in transactions [{}..{}) but {} in [{}..{}) (live data at most {} pages, a commit writes at most {} pages, allowance {}, reader hold {}..{}); workload {} keys {} vsize {} klen {} pop {} reopen_every {}",
+                    first, lo, mid, second, mid, hi, max_live, dwin, slack, lc.reader_from, lc.reader_to, lc.workload, lc.keys, lc.vsize, lc.klen, lc.pop, lc.reopen_every
                 ),
             ));
             return v;
